@@ -45,7 +45,7 @@ Inductive sop :=
 Inductive c06case :=
 (* DataContext(instance i, version v): ConstructKey(tk); UpdateDataKey(copy, i, v, c); parsers on the result;
    TombstoneKey, MinVersionKey, MaxVersionKey *)
-| CKey (i v c : N) (tk : bytes) (go_key : bytes) (go_upd : res bytes)
+| CKey (i v c : N) (tk : bytes) (go_key : bytes) (go_ids0 : res (N * N * N)) (go_upd : res bytes)
        (go_tk : res bytes) (go_ids : res (N * N * N)) (go_ver : res N)
        (go_tomb go_min go_max : bytes) (go_marks : bool * bool)
 (* the same, keeping only the updated key and the ids parsed from it (bulk cube) *)
@@ -184,10 +184,11 @@ Definition cube3 (g : list N) (f : N -> N -> N -> res bytes) (h : N) : N :=
 
 Definition model_ok (c : c06case) : bool :=
   match c with
-  | CKey i v c tk go_key go_upd go_tk go_ids go_ver go_tomb go_min go_max go_marks =>
+  | CKey i v c tk go_key go_ids0 go_upd go_tk go_ids go_ver go_tomb go_min go_max go_marks =>
     let key := construct_data_key i v 0 tk in
     let upd := update_data_key key i v c in
     bytes_eqb go_key key &&
+    res_eqb ids_eqb go_ids0 (data_key_to_local_ids key) &&
     res_eqb bytes_eqb go_upd upd &&
     match upd with
     | Ok k =>
@@ -343,9 +344,9 @@ Fixpoint new_ids (l : list hstep) : list N :=
 
 Definition spec_class (c : c06case) : nat :=
   match c with
-  | CKey i v c tk go_key go_upd go_tk go_ids go_ver go_tomb go_min go_max go_marks =>
-    if is_panic go_upd || is_panic go_tk || is_panic go_ids || is_panic go_ver then 1%nat
-    else if negb (res_eqb bytes_eqb go_tk (Ok tk) && res_eqb ids_eqb go_ids (Ok (i, v, c)) && res_eqb N.eqb go_ver (Ok v)
+  | CKey i v c tk go_key go_ids0 go_upd go_tk go_ids go_ver go_tomb go_min go_max go_marks =>
+    if is_panic go_upd || is_panic go_tk || is_panic go_ids || is_panic go_ver || is_panic go_ids0 then 1%nat
+    else if negb (res_eqb bytes_eqb go_tk (Ok tk) && res_eqb ids_eqb go_ids0 (Ok (i, v, 0)) && res_eqb ids_eqb go_ids (Ok (i, v, c)) && res_eqb N.eqb go_ver (Ok v)
                   && negb (fst go_marks) && snd go_marks) then 2%nat
     else if negb (lex_leb go_min go_key && lex_leb go_key go_max && lex_leb go_min go_tomb && lex_leb go_tomb go_max) then 3%nat
     else if bytes_eqb go_key go_tomb then 9%nat
